@@ -28,6 +28,7 @@ import IbicusModel.Lemmas.GenDebiasers
 #print axioms Props.C02.isimip_step7_restores
 #print axioms Props.C02.isimip_removed_trend_linear
 #print axioms Props.C02.isimip_removed_trend_zero
+#print axioms Props.C02.isimip_linear_trend_passes
 #print axioms Props.C02.isimip_step7_step3_roundtrip
 #print axioms Props.C02.windowed_shift
 #print axioms Props.C02.windowed_shift_DC
